@@ -264,6 +264,28 @@ func CanonSub(st gtab.Subtable) (obj, string) {
 	}
 }
 
+// Formats lists, per lookup and subtable, the format number of those subtables whose alternative
+// formats the projection identifies (Gsub1_1 = 1, Gsub1_2 = 2); 0 for all others, whose formats are
+// distinct kinds of the projection already.
+func Formats(ll gtab.LookupList) [][]int {
+	res := [][]int{}
+	for _, l := range ll {
+		ff := []int{}
+		for _, st := range l.Subtables {
+			switch st.(type) {
+			case *gtab.Gsub1_1:
+				ff = append(ff, 1)
+			case *gtab.Gsub1_2:
+				ff = append(ff, 2)
+			default:
+				ff = append(ff, 0)
+			}
+		}
+		res = append(res, ff)
+	}
+	return res
+}
+
 // Canon projects a lookup list.  A panic inside the projection (index out of range in an
 // inconsistent table) is reported in the note, not propagated.
 func Canon(ll gtab.LookupList) (res []any, note string) {
